@@ -19,7 +19,9 @@ RULE = (
     "s n^i/|n|_gamma has gamma_ij v^i v^j = s^2 < 1 by construction and W = "
     "(1-s^2)^(-1/2) is supplied consistently; which of rho0/eps/rho are "
     "supplied (6 documented combinations), whether defaults are omitted, "
-    "the request order (Tdown4 before/after Ttrace), and Lambda. Sub-check "
+    "the request order (Tdown4 before/after Ttrace), Lambda, Einstein's "
+    "constant (8 pi, 1, 2.5) and whether the velocity is supplied as "
+    "velx/vely/velz or as the tensor key velup3. Sub-check "
     "'tensor' supplies an arbitrary symmetric T_mu_nu directly instead. "
     "Arrays are a pure function of the record. Non-trivial: |alpha-1| > "
     "0.05 everywhere, at least one shift component with |beta^i| > 0.05 "
